@@ -830,6 +830,9 @@ impl World {
     pub fn collect_protocol_pub(&mut self) -> Result<String, String> {
         self.collect_protocol()
     }
+    pub fn set_reward_pub(&mut self, i: usize, emissions: u128, topup: u64) -> Result<String, String> {
+        self.set_reward(i, emissions, topup)
+    }
     /// manager-level update_fees_and_rewards (what the instruction of that name does)
     pub fn update_fees_pub(&mut self, id: u32) -> Result<String, String> {
         self.update_fees(id)
@@ -1121,6 +1124,32 @@ impl Hist {
                 let auth = r.pick(&[0u8, 0, 0, 0, 0, 0, 1, 2]);
                 format!("H xrepo {} {} {} {} {} {} {} {}", id, nlo, nhi, new_liq, r.pick(&[0u8, 0, 1, 2]), fa, fb, auth)
             }
+            49 if r.chance(1, 2) => {
+                // reward / protocol-fee instructions through the entrypoint
+                let fee = |r: &mut Rng| -> String {
+                    if r.chance(1, 2) {
+                        return "65535 0 0".to_string();
+                    }
+                    format!("{} {} {}", r.pick(&[0u64, 1, 100, 300, 5000, 9999, 10000]), r.pick(&[0u64, 1, 5000, 1_000_000, u64::MAX]), b(r.chance(1, 2)))
+                };
+                let (fa, fb) = (fee(r), fee(r));
+                let inits: Vec<usize> = (0..3).filter(|i| wp.reward_infos[*i].initialized()).collect();
+                let kind = if inits.is_empty() { "cproto" } else { r.pick(&["emis", "crew", "crew", "cproto"]) };
+                let idx = if inits.is_empty() { 0 } else { r.pick(&inits) };
+                let value: u128 = if kind == "emis" {
+                    match r.below(5) {
+                        0 => 0,
+                        1 => r.log_u128(100),
+                        2 => (w.reward_vaults[idx].min(u64::MAX as u128 / 4) << 64) / 86400,
+                        3 => ((w.reward_vaults[idx].min(u64::MAX as u128 / 4) << 64) / 86400).saturating_add(r.pick(&[1u128, 1 << 48, 1 << 64])),
+                        _ => r.log_u128(80),
+                    }
+                } else {
+                    0
+                };
+                let auth = r.pick(&[0u8, 0, 0, 0, 0, 1, 2]);
+                format!("H xrew {} {} {} {} {} {} {} {}", kind, if r.chance(1, 2) { 1 } else { 2 }, idx, id, auth, value, fa, fb)
+            }
             49 => format!("H upd {}", id),
             50..=54 => format!("H cfees {}", id),
             55..=57 => "H cproto".to_string(),
@@ -1358,6 +1387,22 @@ impl Family for Hist {
                     ctx.tag("xsub");
                     // skipped experiments (control fails / no look-alike exists) are counted in the tags
                     (if o.line == "ACCEPTED" { "ACCEPTED" } else { "rejected" }).to_string() + " | " + &w.digest()
+                }
+                Err(_) => "err HarnessPanic | ".to_string() + &w.digest(),
+            };
+        }
+        if t[1] == "xrew" {
+            let o = std::panic::catch_unwind(std::panic::AssertUnwindSafe(|| w.x_rew(&t)));
+            return match o {
+                Ok(o) => {
+                    for v in o.viols {
+                        ctx.viol(v);
+                    }
+                    for tg in o.tags {
+                        ctx.tag(tg);
+                    }
+                    ctx.tag("xrew");
+                    o.line + " | " + &w.digest()
                 }
                 Err(_) => "err HarnessPanic | ".to_string() + &w.digest(),
             };
